@@ -11,6 +11,15 @@ SUITES = {
     'reasm': dict(bin='reasm', nontrivial=r'^C \d+ \S+ \S+'),
 }
 
+AGENT_RULE = ('suite agent: random histories (8-60 operations) of a StunClient over {send_request, send_indication, on_buffer_recv of crafted '
+    'replies, on_timeout on time / early / late up to beyond the deadline}, configurations reliable/unreliable x RTO x Rm x Rc x limit 0-10 '
+    'x {no mechanism, short-term x3, long-term} x fingerprint; replies addressed to outstanding, finished and unknown ids, valid / corrupted / '
+    'wrongly keyed / absent integrity, valid / corrupted / absent / misplaced FINGERPRINT, undecodable bytes; every return value, event list '
+    'and hook snapshot compared with the model; distinct = distinct histories, every history is non-trivial')
+AGENT_ASSUME = ['transaction ids drawn by the implementation are pairwise distinct (checked by the harness, not proved)',
+                'instants passed to the client are monotone',
+                'abstract-message level: the harness crafts real packets from abstract descriptions and reads emitted packets back with its own TLV walk, HMAC and CRC']
+
 PROPS = {
     'C09': dict(
         suites=['filter'],
@@ -50,4 +59,11 @@ PROPS = {
         rule='suites agent and reasm (see C05, C16): every call is made under catch_unwind; a panic is the result PANIC',
         assumptions=['external crates (PRECIS tables, pest runtime, base64, hash crates) are total functions in the model'],
     ),
+    'C06': dict(suites=['agent'], monitors=['C06'], rule=AGENT_RULE, assumptions=AGENT_ASSUME + []),
+    'C07': dict(suites=['agent'], monitors=['C07'], rule=AGENT_RULE, assumptions=AGENT_ASSUME + []),
+    'C08': dict(suites=['agent'], monitors=['C08'], rule=AGENT_RULE, assumptions=AGENT_ASSUME + []),
+    'C11': dict(suites=['agent'], monitors=['C11'], rule=AGENT_RULE, assumptions=AGENT_ASSUME + ['the controller eventually fires the timer it armed (environment assumption)']),
+    'C12': dict(suites=['agent'], monitors=['C12'], rule=AGENT_RULE, assumptions=AGENT_ASSUME + []),
+    'C13': dict(suites=['agent'], monitors=['C13'], rule=AGENT_RULE, assumptions=AGENT_ASSUME + []),
+    'C17': dict(suites=['agent'], monitors=['C17'], rule=AGENT_RULE, assumptions=AGENT_ASSUME + []),
 }
